@@ -16,6 +16,8 @@ import (
 	"github.com/cosi-project/runtime/pkg/controller/runtime/options"
 	"github.com/cosi-project/runtime/pkg/resource"
 	"github.com/cosi-project/runtime/pkg/state"
+	"github.com/cosi-project/runtime/pkg/state/impl/inmem"
+	"github.com/cosi-project/runtime/pkg/state/impl/namespaced"
 	"github.com/cosi-project/runtime/pkg/task"
 	"verif.local/explore"
 	"verif.local/harness/hx"
@@ -486,6 +488,119 @@ func shutdownScenario(name string, watchFail bool, q bool, bounds []int) explore
 	}
 }
 
+// ---------------------------------------------------------------- C2. a failing output sweep next to a healthy controller
+
+// trackingScenario: two controllers with output tracking. F's sweep fails (a foreign finalizer pins one of
+// its stale outputs) until the finalizer is removed; V never fails. After F has recovered, one more change
+// makes both reconcile at the same time, all schedules: V's outputs are exactly what V wrote, F's are exactly
+// its current ones - the faults of F are over and must have left nothing behind.
+func trackingScenario(bounds []int) explore.Scenario {
+	tSen := conformance.SentenceResourceType
+	return explore.Scenario{
+		Name:     "tracking/failed-sweep-then-overlap",
+		MaxExecs: 250000,
+		HB:       true,
+		Desc:     "two probe controllers using StartTrackingOutputs/CleanupOutputs; F's CleanupOutputs fails twice (a foreign finalizer on a stale output) and then recovers; afterwards both reconcile concurrently: the healthy controller's outputs must survive its own sweep and F's must be exactly its current ones",
+		Bounds:   bounds,
+		Body: func(x *explore.X) {
+			ctx, cancel := vctx.WithCancel(context.Background())
+			st := state.WrapCore(namespaced.NewState(inmem.Build))
+			vrt.Branching(false)
+			if err := st.Create(ctx, conformance.NewIntResource(hx.NS, "a", 1)); err != nil {
+				panic(err)
+			}
+			stale := conformance.NewStrResource(hx.NS, "f-stale", "old")
+			stale.Metadata().Finalizers().Add("hold")
+			if err := st.Create(ctx, stale, state.WithCreateOwner("F")); err != nil {
+				panic(err)
+			}
+			rt, err := runtime.NewRuntime(st, zap.NewNop(), options.WithMetrics(false))
+			if err != nil {
+				panic(err)
+			}
+			in := []controller.Input{{Namespace: hx.NS, Type: tInt, Kind: controller.InputWeak}}
+			fFails := 0
+			f := &px.Probe{NameV: "F", InputsV: in, OutputsV: []controller.Output{{Type: tStr, Kind: controller.OutputExclusive}}}
+			f.OnEvent = func(ctx context.Context, r controller.Runtime, _ int) error {
+				r.StartTrackingOutputs()
+				if err := r.Modify(ctx, conformance.NewStrResource(hx.NS, "f-cur", ""), func(res resource.Resource) error {
+					res.(*conformance.StrResource).SetValue("cur")
+					return nil
+				}); err != nil {
+					return err
+				}
+				if err := r.CleanupOutputs(ctx, resource.NewMetadata(hx.NS, tStr, "", resource.VersionUndefined)); err != nil {
+					vrt.TouchKey("c16.tracking", true)
+					fFails++
+					return err
+				}
+				return nil
+			}
+			v := &px.Probe{NameV: "V", InputsV: in, OutputsV: []controller.Output{{Type: tSen, Kind: controller.OutputExclusive}}}
+			v.OnEvent = func(ctx context.Context, r controller.Runtime, _ int) error {
+				r.StartTrackingOutputs()
+				for _, id := range []string{"v1", "v2"} {
+					if err := r.Modify(ctx, conformance.NewSentenceResource(hx.NS, id, ""), func(res resource.Resource) error { return nil }); err != nil {
+						return err
+					}
+				}
+				vrt.Yield() // the pass takes time: another controller's pass may start meanwhile
+				return r.CleanupOutputs(ctx, resource.NewMetadata(hx.NS, tSen, "", resource.VersionUndefined))
+			}
+			for _, p := range []*px.Probe{f, v} {
+				if err := rt.RegisterController(p); err != nil {
+					panic(err)
+				}
+			}
+			runDone := false
+			vrt.GoNamed("runtime.Run", func() { rt.Run(ctx); vrt.TouchKey("c16.tracking", true); runDone = true }) //nolint:errcheck
+			// F fails and is restarted with back-off until it has failed twice
+			for i := 0; i < 64 && fFails < 2; i++ {
+				vrt.WaitQuiescent()
+				vrt.TouchKey("c16.tracking", false)
+				if _, ok := vrt.PendingTimer(); !ok {
+					break
+				}
+				vrt.FireNextTimer()
+			}
+			if fFails < 2 {
+				x.FailKey("harness/tracking", "F's sweep failed %d times, expected at least 2 (the scenario does not reach its start state)", fFails)
+			}
+			if err := st.RemoveFinalizer(ctx, stale.Metadata(), "hold"); err != nil {
+				panic(err)
+			}
+			drain(10*time.Minute, nil) // F recovers: sweeps f-stale
+			vrt.Branching(true)
+			update(ctx, st, "a") // one more change: both reconcile, at the same time
+			drain(10*time.Minute, nil)
+			vrt.Branching(false)
+			list := func(typ resource.Type) string {
+				l, err := st.List(ctx, resource.NewMetadata(hx.NS, typ, "", resource.VersionUndefined))
+				if err != nil {
+					panic(err)
+				}
+				var ids []string
+				for _, r := range l.Items {
+					ids = append(ids, r.Metadata().ID())
+				}
+				return strings.Join(ids, ",")
+			}
+			if got := list(tSen); got != "v1,v2" {
+				x.FailKey("tracking/healthy-controller-lost-outputs", "after F's failed sweeps were over, the outputs of V (which never failed) are [%s], expected [v1,v2]: its own sweep destroyed what it had just written", got)
+			}
+			if got := list(tStr); got != "f-cur" {
+				x.FailKey("tracking/faulty-controller-outputs", "after recovery F's outputs are [%s], expected [f-cur]", got)
+			}
+			x.Outcome("sen=[%s] str=[%s]", list(tSen), list(tStr))
+			cancel()
+			vrt.WaitQuiescent()
+			if !runDone {
+				x.Failf("Run did not return after cancel")
+			}
+		},
+	}
+}
+
 // ---------------------------------------------------------------- D. pkg/task
 
 type spec struct {
@@ -616,6 +731,7 @@ func build(tier string) []explore.Scenario {
 		shutdownScenario("shutdown/watch-error/qcontroller", true, true, b1),
 		shutdownScenario("shutdown/cancel/controller/during-startup", false, false, []int{0}),
 		shutdownScenario("shutdown/cancel/qcontroller/during-startup", false, true, []int{0}),
+		trackingScenario(b1),
 	}
 	for i := range out {
 		if out[i].HB {
